@@ -150,7 +150,7 @@ def gen_value(r, valid_only=False):
     if c == 9:
         return {'d': 1}
     if c == 10:
-        return r.pick([[1, 'a'], [True, 1], ['a', 2.0], (1.0, 1)])
+        return r.pick([[1, 'a'], [True, 1], ['a', 2.0], (1.0, 1), [1, True], (0, False, 2), [2, 2.5], [b'x', 1]])
     if c == 11:
         return r.pick([b'\xff\xfe', b'\x80abc'])
     if c == 12:
